@@ -406,6 +406,45 @@ class OrderedSet(set):
         return iter(self._order)
 
 
+async def c09_dropped_before_start(w):
+    """A file defines the same trigger function twice (or deletes it) while its global context is not started yet (that is how
+    files are loaded); after the context starts, only the definition that is still referenced may react."""
+    from types import SimpleNamespace as NS
+    from custom_components.pyscript.global_ctx import GlobalContext, GlobalContextMgr
+    from custom_components.pyscript.state import State, StateVal
+    out = {}
+    for sub in ("new", "legacy"):
+        for how, want in (("redefine", ["new"]), ("delete", [])):
+            hass = await boot_full(legacy=(sub == "legacy"))
+            table = fake_states(hass)
+            State.notify_var_last.clear()
+            table["pyscript.door"] = ("closed", {})
+            ran = []
+            name = f"file.c09_{sub}_{how}"
+            g = GlobalContext(name, global_sym_table={"__name__": name, "note": lambda v: ran.append(v)}, manager=GlobalContextMgr)
+            GlobalContextMgr.set(name, g)
+            g.set_auto_start(False)
+            src = "@state_trigger(\"pyscript.door == 'open'\")\ndef guard(**kwargs):\n    note('old')\n\n"
+            src += ("@state_trigger(\"pyscript.door == 'open'\")\ndef guard(**kwargs):\n    note('new')\n" if how == "redefine" else "del guard\n")
+            _, _, exc = await run_source(name, src, global_ctx=g)
+            await settle(30)
+            g.set_auto_start(True)
+            g.start()
+            await settle(60)
+            table["pyscript.door"] = ("open", {})
+            nv = StateVal(NS(state="open", attributes={}, entity_id="pyscript.door", last_updated="u", last_changed="c", last_reported="r"))
+            ov = StateVal(NS(state="closed", attributes={}, entity_id="pyscript.door", last_updated="u", last_changed="c", last_reported="r"))
+            await State.update({"pyscript.door": nv, "pyscript.door.old": ov}, {"trigger_type": "state", "var_name": "pyscript.door", "value": nv, "old_value": ov, "context": None})
+            await settle(60)
+            out[f"{sub}:{how}"] = {"ran": sorted(ran), "expected": want, "error": repr(exc) if exc else None}
+            g.stop()
+            GlobalContextMgr.delete(name)
+            await settle(60)
+            await shutdown()
+    bad = {k: v for k, v in out.items() if v["ran"] != v["expected"]}
+    return {"reproduced": bool(bad), "observed": out, "expected": "only the definition still referenced reacts: ['new'] after a redefinition, [] after del"}
+
+
 async def c09_state_notify_del(w):
     """State.notify_add(names, q) then State.notify_del(names, q) with the iteration order of the model."""
     from custom_components.pyscript.state import State
